@@ -195,7 +195,11 @@ static void caseC03(uint64_t idx, vh::Rng& g)
 	{
 		R->phase("RemoveUnreachableStates");
 		// half of the calls supply the optional out-parameter (the result must not depend on it)
-		AutBase::StateToStateMap um; bool uo = g.chance(1, 2); if (uo) R->count("out-parameter:unreach-map");
+		// ... and half of those pass a map that still holds the entries of earlier calls on other automata (a caller that
+		// reuses one map object, or pipes one map through RemoveUnreachableStates and RemoveUselessStates; seeded change m99)
+		static AutBase::StateToStateMap carried; if (carried.size() > 48) carried.clear();
+		AutBase::StateToStateMap fresh; bool uo = g.chance(1, 2); if (uo) R->count("out-parameter:unreach-map");
+		bool reuseMap = uo && g.chance(1, 2); if (reuseMap) R->count("out-parameter:map-with-earlier-entries"); AutBase::StateToStateMap& um = reuseMap ? carried : fresh;
 		Aut u = uo ? A.RemoveUnreachableStates(&um) : A.RemoveUnreachableStates(); RTA ru = readExpl(u, &ca);
 		int c = rm::cmpLang(a, ru, al);
 		if (c > 0) R->violation(C03 + "/unreach/language", "language changed (diff mask " + vh::str(c) + ")");
@@ -205,7 +209,8 @@ static void caseC03(uint64_t idx, vh::Rng& g)
 		if (readExpl(A, &ca) != a) R->violation(C03 + "/unreach/operand-changed", "");
 
 		R->phase("RemoveUselessStates");
-		AutBase::StateToStateMap vm; bool vo = g.chance(1, 2); if (vo) R->count("out-parameter:useless-map");
+		AutBase::StateToStateMap fresh2; bool vo = g.chance(1, 2); if (vo) R->count("out-parameter:useless-map");
+		bool reuse2 = vo && g.chance(1, 2); if (reuse2) R->count("out-parameter:map-with-earlier-entries"); AutBase::StateToStateMap& vm = reuse2 ? (uo && g.chance(1, 2) ? um : carried) : fresh2;
 		Aut v = vo ? A.RemoveUselessStates(&vm) : A.RemoveUselessStates(); RTA rv = readExpl(v, &ca);
 		c = rm::cmpLang(a, rv, al);
 		if (c > 0) R->violation(C03 + "/useless/language", "language changed (diff mask " + vh::str(c) + ")");
